@@ -63,7 +63,7 @@ class C17(Prop):
                        "least one of: third duplicate, timer expiry, congestion-avoidance ACK. kind 'app' (a quarter of the cases): the same sender "
                        "with the Flow's application process -- scripted arrival_dist (dyadic inter-write times incl. 0) and size_dist (writes of "
                        "k*MSS, non-multiples, less than one MSS, zero), flow sizes with a trailing partial segment or below one MSS, start_time, "
-                       "finish_time -- under ACK / duplicate / wait scripts; non-trivial = run() is resumed by an application write at least once "
+                       "finish_time -- under ACK / duplicate / wait scripts, Reno or (30%) CUBIC (MSS 512, defaults or preset; cnt fed from the observation, recomputed exactly by the monitor); non-trivial = run() is resumed by an application write at least once "
                        "and something is transmitted. distinct by hash of the case")
     trusted_base = [
         "vlib/translate.py (Python ast, fail closed; tables in props/tcp_tie.py) regenerates coq/Gen/Extracted_tcpsender.v from "
@@ -91,7 +91,15 @@ class C17(Prop):
                    "RTT samples are non-negative (ack.time <= now); initial rtt_estimate > 0"]
     partial = ["the translated-definition tie covers the CongestionControl / TCPReno / TCPCubic method bodies and TCPPacketGenerator.put / "
                "timeout_callback (Props/C17_Bridge.v); resend_packet and the loop that stops acknowledged timers are tied by Props/C17_BridgeResend.v (the loop as one generated iteration run with fuel); run() is a generator and is tied by the correspondence and the monitor only",
-               "binary64 rounding: theorems are over Q; CUBIC's cnt is compared within 1e-5 (ill-conditioned max_cnt), W_tcp within 1e-9"]
+               "binary64 rounding: theorems are over Q; CUBIC's cnt is compared within 1e-5 (ill-conditioned max_cnt), W_tcp within 1e-9",
+               "behaviour outside C17's text (stated, not judged): C17 speaks of whole segments only. What the code does with buffered data short of "
+               "one MSS -- a short application write, or the trailing partial segment of a flow whose size is not a multiple of the MSS -- is: "
+               "with next_seq < send_buffer < next_seq + MSS the remainder is never sent (the guard needs a whole MSS), run() keeps waiting on "
+               "its store and never reaches `finished` (next_seq < flow.size forever), and it stops fetching from the application as well "
+               "(the fetch loop runs only while next_seq >= send_buffer), so later writes are never taken: the state is permanent under every "
+               "event (C17_app_partial_tail_waits, C17_app_partial_buffer_is_permanent; witness C17_ex_app_partial_tail; cases app:size=partial-tail "
+               "and short size_dist writes reproduce it). With no application configured run() of the extended model is Sender.v's on_wake "
+               "(C17_app_plain_is_on_wake), so the kind 'sender' theorems and C16's loop model are about the same run()"]
 
     # ---- generation -------------------------------------------------------------------------
     def gen_case(self, rng, tier):
@@ -102,10 +110,19 @@ class C17(Prop):
 
     def gen_app(self, rng, tier):
         """application-limited senders: scripted arrival_dist / size_dist, any flow size, start_time, finish_time"""
-        mss = rng.choice([512, 512, 100])
-        case = {"kind": "app", "alg": "reno", "mss": mss, "nseg": 0}
-        case["cwnd"] = T.qj(F(mss * rng.choice([1, 2, 4, 4, 8])))
-        case["ssth"] = T.qj(F(65535) if rng.random() < 0.5 else F(mss * rng.randint(1, 8)))
+        alg = "reno" if rng.random() < 0.7 else "cubic"    # the fetch loop does not depend on the algorithm
+        mss = rng.choice([512, 512, 100]) if alg == "reno" else 512
+        case = {"kind": "app", "alg": alg, "mss": mss, "nseg": 0}
+        if alg == "reno":
+            case["cwnd"] = T.qj(F(mss * rng.choice([1, 2, 4, 4, 8])))
+            case["ssth"] = T.qj(F(65535) if rng.random() < 0.5 else F(mss * rng.randint(1, 8)))
+        else:
+            # TCPCubic ignores its arguments (cwnd 512, ssthresh 65535); preset as in gen_sender to reach congestion avoidance.
+            # The model is fed the `cnt` the real code computed (EAck's oracle); the monitor recomputes it exactly.
+            case.update(cwnd="512/1", ssth="65535/1")
+            if rng.random() < 0.5:
+                case["cubic_preset"] = True
+                case.update(cwnd=T.qj(F(512 * rng.choice([1, 2, 4, 8]))), ssth=T.qj(F(512 * rng.randint(0, 8))))
         case["rtt0"] = T.qj(rng.choice([F(3, 8), F(3, 8), F(1, 2), F(1, 4), F(1)]))
         r = rng.random()
         if r < 0.3:
@@ -492,7 +509,8 @@ class C17(Prop):
     def describe(self, case, obs):
         keys = [f"sender:{case['alg']}" + (":preset" if case.get("cubic_preset") else "")]
         if case["kind"] == "app":
-            keys = ["app", "app:arrival_dist" if case["arr"] is not None else "app:no-arrival_dist",
+            keys = ["app", f"app:{case['alg']}" + (":preset" if case.get("cubic_preset") else ""),
+                    "app:arrival_dist" if case["arr"] is not None else "app:no-arrival_dist",
                     "app:size_dist" if case["siz"] is not None else "app:no-size_dist",
                     "app:size=" + ("none" if not case["size"] else "multiple" if case["size"] % case["mss"] == 0 else "partial-tail")]
             if case["finish"] is not None:
